@@ -11,13 +11,17 @@ from vf import oalmodel as om
 
 INT, STR, BOOL, REAL, ENUM, ENUM2, VOID = 'integer', 'string', 'boolean', 'real', 'Color', 'Mood', 'void'
 UID = 'unique_id'      # identifying and referential attributes (read, compared, kept in variables)
+# user types over core types: reads of attributes / parameters declared with them keep the user type, the
+# comparison or boolean operator above them yields boolean
+FLAG, COUNT = 'Flag_t', 'Count_t'
+UDT_BASE = {FLAG: BOOL, COUNT: INT}
 
 CLASSES = {
-    'A': [('Id', 'unique_id'), ('N', INT), ('S', STR), ('F', BOOL), ('Next_Id', None), ('Hue', ENUM)],
+    'A': [('Id', 'unique_id'), ('N', INT), ('S', STR), ('F', BOOL), ('Next_Id', None), ('Hue', ENUM), ('G', FLAG)],
     'B': [('Id', 'unique_id'), ('A_Id', None), ('N', INT), ('S', STR)],
     'C': [('Id', 'unique_id'), ('A_Id', None), ('F', BOOL), ('N', INT)],
     'L': [('A_Id', None), ('B_Id', None), ('W', INT)],
-    'D': [('Id', 'unique_id'), ('S', STR), ('K', INT), ('X', REAL)],
+    'D': [('Id', 'unique_id'), ('S', STR), ('K', INT), ('X', REAL), ('Cnt', COUNT)],
 }
 # (rel, from class, to class, phrase or None): navigable steps
 NAV = [(1, 'B', 'A', None), (1, 'A', 'B', None), (2, 'C', 'A', None), (2, 'A', 'C', None),
@@ -35,7 +39,7 @@ FUNCS = {'f_shadow': (VOID, [('p_int', STR), ('p_str', BOOL), ('p_bool', INT)]),
 BRIDGES = {'b_shadow': (VOID, [('p_int', BOOL), ('p_str', INT), ('p_bool', STR)]), 'b_int': (INT, [('num', INT)]), 'b_void': (VOID, [('txt', STR), ('num', INT)]), 'b_str': (STR, [])}
 CLASS_OPS = {'cop_int': (INT, [('num', INT)]), 'cop_void': (VOID, [])}
 INST_OPS = {'iop_shadow': (VOID, [('p_int', STR), ('p_str', BOOL), ('p_bool', INT)]), 'iop_int': (INT, [('num', INT), ('txt', STR)]), 'iop_void': (VOID, []), 'iop_bool': (BOOL, [('flag', BOOL)])}
-HOME_PARAMS = [('p_int', INT), ('p_str', STR), ('p_bool', BOOL)]
+HOME_PARAMS = [('p_int', INT), ('p_str', STR), ('p_bool', BOOL), ('p_flag', FLAG), ('p_cnt', COUNT)]
 ENUMERATORS = ['Red', 'Green', 'Blue']
 ENUMERATORS2 = ['Blue', 'Happy', 'Red']        # shares names with Color on purpose
 CONSTS = [('C_INT', INT, '42'), ('C_STR', STR, 'hello'), ('C_BOOL', BOOL, 'true')]
@@ -57,7 +61,7 @@ HOME_EVENT_DATA = {'state': [('x', INT), ('msg', STR)], 'transition': [('flag', 
 def diagram():
     d = bp.Diagram()
     d.enums = [('Color', list(ENUMERATORS), 'pkg'), ('Mood', list(ENUMERATORS2), 'pkg')]
-    d.udts = [('Count_t', 'integer', 'pkg')]
+    d.udts = [('Count_t', 'integer', 'pkg'), ('Flag_t', 'boolean', 'pkg')]
     ops = [bp.Callable_(n, r, p, '', False) for n, (r, p) in CLASS_OPS.items()]
     ops += [bp.Callable_(n, r, p, '', True) for n, (r, p) in INST_OPS.items()]
     ops.append(bp.Callable_('home_op', INT, HOME_PARAMS, '', True))
@@ -127,6 +131,10 @@ def T(node, ty):
     return node
 
 
+UDT_OPERANDS = [0]
+CASE_VARIANTS = [0]
+
+
 class Gen(object):
     def __init__(self, rng, home, features=None, events=False):
         self.rng = rng
@@ -149,6 +157,11 @@ class Gen(object):
             n = self.rng.choice(free)
             self.retired.remove(n)
             return n
+        # a name that differs from a visible one only in letter case is another variable
+        seen = [n for n, t in self.vars_of(lambda t: True) if n.upper() != n and self.lookup(n.upper()) is None]
+        if seen and self.rng.random() < 0.12:
+            CASE_VARIANTS[0] += 1
+            return self.rng.choice(seen).upper()
         self.counter += 1
         return '%s%d' % (p, self.counter)
 
@@ -194,6 +207,32 @@ class Gen(object):
             return None
         mk, n, a = r.choice(cands)
         return T(om.field(mk(n), a), ty)
+
+    def udt_operand(self, base, selected_kind=None):
+        '''a read of an attribute or parameter declared with a user type over *base*, or None'''
+        r = self.rng
+        udt = FLAG if base == BOOL else COUNT if base == INT else None
+        if udt is None or r.random() >= 0.25:
+            return None
+        cands = []
+        for n, t in self.inst_vars():
+            for a, at in CLASSES[t[1]]:
+                if at == udt:
+                    cands.append(lambda n=n, a=a: om.field(self.handle(n), a))
+        if self.has_self and udt == FLAG:
+            cands.append(lambda: om.field(T(om.self_(), ('inst', 'A')), 'G'))
+        if selected_kind:
+            for a, at in CLASSES[selected_kind]:
+                if at == udt:
+                    cands.append(lambda a=a: om.field(T(om.selected(), ('inst', selected_kind)), a))
+        if self.has_params:
+            for pn, pt in self.home_params:
+                if pt == udt:
+                    cands.append(lambda pn=pn: om.param(pn))
+        if not cands:
+            return None
+        UDT_OPERANDS[0] += 1
+        return T(r.choice(cands)(), udt)
 
     def uid_read(self, selected_kind=None):
         '''a read of an identifying or a referential attribute (the referential ones carry another name than
@@ -388,13 +427,14 @@ class Gen(object):
                 return T(om.binary(r.choice(('==', '!=')), a, b), BOOL)
             op = 'cmp'
         if op == 'cmp':
-            return T(om.binary(r.choice(('<', '<=', '==', '!=', '>=', '>')), self.expr(INT, depth - 1, selected_kind),
-                               self.expr(INT, depth - 1, selected_kind)), BOOL)
+            return T(om.binary(r.choice(('<', '<=', '==', '!=', '>=', '>')),
+                               self.udt_operand(INT, selected_kind) or self.expr(INT, depth - 1, selected_kind),
+                               self.udt_operand(INT, selected_kind) or self.expr(INT, depth - 1, selected_kind)), BOOL)
         if op in ('and', 'or'):
-            return T(om.binary(op, self.expr(BOOL, depth - 1, selected_kind),
-                               self.expr(BOOL, depth - 1, selected_kind)), BOOL)
+            return T(om.binary(op, self.udt_operand(BOOL, selected_kind) or self.expr(BOOL, depth - 1, selected_kind),
+                               self.udt_operand(BOOL, selected_kind) or self.expr(BOOL, depth - 1, selected_kind)), BOOL)
         if op == 'not':
-            return T(om.unary('not', self.expr(BOOL, depth - 1, selected_kind)), BOOL)
+            return T(om.unary('not', self.udt_operand(BOOL, selected_kind) or self.expr(BOOL, depth - 1, selected_kind)), BOOL)
         if op == 'streq':
             return T(om.binary(r.choice(('==', '!=')), self.expr(STR, depth - 1, selected_kind),
                                self.expr(STR, depth - 1, selected_kind)), BOOL)
@@ -501,7 +541,7 @@ class Gen(object):
             writable = [(a, t) for a, t in CLASSES[kl] if t not in (None, 'unique_id')]
             a, t = r.choice(writable)
             h = T(om.self_(), ('inst', 'A')) if n is None else self.handle(n)
-            return om.assign(T(om.field(h, a), t), self.expr(t, 2))
+            return om.assign(T(om.field(h, a), t), self.expr(UDT_BASE.get(t, t), 2))
         if k == 'create':
             kl = r.choice(list(CLASSES))
             have = set(t[1] for n, t in self.inst_vars())
